@@ -115,17 +115,47 @@ def compared_attrs(fn):
 
 
 def regen_keys(repo=None):
+    """[(attribute written, per-file key read, node)] of recreate_properties_file; loops over constant name tuples are unrolled"""
+    from .. import cfold
     m = pyfront.mod("digital_rf_hdf5", repo)
     fn = m.fn("recreate_properties_file")
+    folder = cfold.Folder(repo)
     out = []
-    for n in ast.walk(fn):
-        if isinstance(n, ast.Assign) and isinstance(n.targets[0], ast.Subscript):
-            t = n.targets[0]
-            if pyfront.dotted(t.value) == "fo.attrs":
-                k = pyfront.const(t.slice)
-                v = n.value
-                vk = pyfront.const(v.slice) if isinstance(v, ast.Subscript) and pyfront.dotted(v.value) == "md" else None
-                out.append((k, vk, n))
+
+    def keyvals(e, env):
+        if isinstance(e, ast.Name) and e.id in env:
+            return env[e.id]
+        c = pyfront.const(e)
+        return [c] if c is not None else None
+
+    def visit(stmts, env):
+        for st in stmts:
+            if isinstance(st, ast.For) and isinstance(st.target, ast.Name):
+                try:
+                    items = folder.expr("digital_rf_hdf5", st.iter)
+                except AnalysisError:
+                    items = None
+                if isinstance(items, list) and all(isinstance(x, str) for x in items):
+                    for it in items:
+                        visit(st.body, dict(env, **{st.target.id: [it]}))
+                    continue
+            if isinstance(st, ast.Assign) and isinstance(st.targets[0], ast.Subscript):
+                t = st.targets[0]
+                if isinstance(t.value, ast.Attribute) and t.value.attr == "attrs":
+                    ks = keyvals(t.slice, env)
+                    v = st.value
+                    vks = keyvals(v.slice, env) if isinstance(v, ast.Subscript) and isinstance(v.value, ast.Name) else None
+                    if ks is None:
+                        raise AnalysisError("recreate_properties_file: attribute name in `%s` is not a constant" % norm(ast.unparse(st)))
+                    out.append((ks[0], vks[0] if vks else None, st))
+            for fld in ("body", "orelse", "finalbody"):
+                sub = getattr(st, fld, None)
+                if sub and not (isinstance(st, ast.For) and fld == "body" and False):
+                    visit(sub, env)
+            for h in getattr(st, "handlers", []) or []:
+                visit(h.body, env)
+
+    visit(fn.body, {})
     return m, fn, out
 
 
